@@ -87,7 +87,7 @@ pub fn generate(s: &mut Session, tier: &str, rng: &mut Rng) {
     }
     s.mark_nontrivial();
     s.begin_case("malformed-targets");
-    for (m, t) in [("GET", "/index.html"), ("GET", "/"), ("POST", "/a?b=http://x/"), ("GET", "*"), ("CONNECT", "example.com"), ("CONNECT", "example.com:"), ("CONNECT", "example.com:https"), ("CONNECT", "example.com:65536"), ("CONNECT", "example.com:-1"), ("GET", "http://h:99999/"), ("GET", "http://h:port/"), ("GET", "http://h:/x"), ("GET", "index.html"), ("GET", "")] {
+    for (m, t) in [("GET", "/index.html"), ("GET", "/"), ("POST", "/a?b=http://x/"), ("GET", "*"), ("CONNECT", "example.com"), ("CONNECT", "example.com:"), ("CONNECT", "example.com:https"), ("CONNECT", "example.com:65536"), ("CONNECT", "example.com:-1"), ("GET", "http://h:99999/"), ("GET", "http://h:port/"), ("GET", "http://h:/x"), ("GET", "index.html"), ("GET", ""), ("GET", "/x://evil.example/"), ("GET", "://evil.example/"), ("POST", "/a/b://c:81/d")] {
         expect_http(s, m, t, None, "malformed-refused");
     }
     // empty or over-long host names are refused by the admission check, never tunnelled
